@@ -235,10 +235,19 @@ def run(ck):
                     recorded = True
                 if c.get('m') == 'contains' and rf and rf[0] in set_fields:
                     tested = True
+                if c.get('m') == 'insert' and rf and rf[0] in set_fields:
+                    # `if set.insert(name)`: the boolean result is the membership test
+                    conds = [a for a in H.ancestors(g, c) if a.get('k') == 'If' and any(x is c for x in walk(a['c']))]
+                    if conds and not any(x.get('k') == 'Unary' and x.get('op') == 'Not' and any(y is c for y in walk(x)) for x in walk(conds[0]['c'])):
+                        rr = [r for r in walk(conds[0]['then']) if r.get('k') == 'Ret']
+                        same = bool(rr) and all((H.root_local(r.get('e', {})) or {}).get('hid') == (H.root_local(c['args'][0]) or {}).get('hid') for r in rr)
+                        if same:
+                            tested = True
             ok = recorded and tested
             ck.ob('R10.3', 'issued-names-consulted|%s' % g['name'], ok, L.loc(g['body']),
                   'returned names are inserted into and tested against %s' % set_fields if ok else
-                  'generator state is per-prefix counters only (fields: %s): a name produced for one prefix (label+1) can equal one produced for another (label1+0)' % [f['name'] for f in fields], fn=g['path'])
+                  ('generator state is per-prefix counters only (fields: %s): a name produced for one prefix (label+1) can equal one produced for another (label1+0)' % [f['name'] for f in fields]) if not set_fields else
+                  ('the name returned by %s is not %s the set of issued names (%s): it can be handed out again' % (g['name'], 'recorded in' if not recorded else 'tested against (with the result deciding acceptance)', set_fields)), fn=g['path'])
     gw = L.fn('qtname::UniqueNameGenerator::generate_with_reserved_map')
     if gw is not None:
         bs = H.binding_sites(gw)
@@ -256,7 +265,19 @@ def run(ck):
                     ok = slot == 0 and from_find
                     why = 'counter = <accepted candidate index> + 1' if ok else 'counter assigned from %s' % pp(n['r'], maxlen=40)
             else:
-                why = 'counter is only incremented (%s): after skipping a reserved id the same candidate is produced again' % pp(n, maxlen=40)
+                # loop form: `loop { let id = f(prefix, *count); *count += 1; if <free> { return id } }`: every iteration,
+                # accepted or not, consumes its own counter value
+                lp = next((a for a in H.ancestors(gw, n) if a.get('k') == 'Loop'), None)
+                body = lp.get('body') if lp is not None else None
+                stmts = [x.get('e', x) for x in (body or {}).get('stmts', [])]
+                cand = next((x for x in (body or {}).get('stmts', []) if x.get('k') == 'Let' and any(H.is_call_to(c, 'concat_number_suffix') for c in H.calls_in(x.get('init', {'k': 'x'})))), None)
+                direct = any(x is n for x in stmts)
+                inc1 = n.get('op') in ('Add', 'AddAssign') and H.lit_value(n['r']) == 1
+                if lp is not None and direct and inc1 and cand is not None and H.source_before(cand, n):
+                    ok = True
+                    why = 'each loop iteration takes the candidate for the current counter and then advances the counter unconditionally'
+                elif not ok:
+                    why = 'counter is only incremented (%s): after skipping a reserved id the same candidate is produced again' % pp(n, maxlen=40)
         ck.ob('R10.3', 'counter-skips-accepted-candidate', ok, L.loc(gw['body']), why, fn=gw['path'])
         rc = [c for c in H.calls_in(gw['body']) if c.get('m') == 'contains_key']
         ok = len(rc) == 1 and bs.get((H.root_local(rc[0]['recv']) or {}).get('hid'), {}).get('kind') == 'param'
